@@ -178,3 +178,54 @@ pub fn exclude_body(ka: u16) {
 }
 
 include!("gen_c06.rs");
+
+/// Cross-check of the transfer step: the same obligations on the real `T = FieldValue`
+/// instantiation, for shapes whose bounds cannot change variant under a symbolic condition.
+pub mod fv {
+    use std::ops::Bound;
+    use std::sync::Arc;
+
+    use trustfall_core::interpreter::{CandidateValue, Range};
+    use trustfall_core::ir::FieldValue;
+
+    use crate::c04::member;
+    use crate::mkv;
+
+    pub fn intersect_fv(mut a: CandidateValue<FieldValue>, b: CandidateValue<FieldValue>, p: FieldValue) {
+        let exp = member(&a, &p) && member(&b, &p);
+        a.verif_intersect(b);
+        let got = member(&a, &p);
+        kani::cover!(exp, "witness: probe in both candidates");
+        kani::cover!(!exp, "witness: probe outside the intersection");
+        std::mem::forget(a);
+        std::mem::forget(p);
+        assert!(got == exp, "intersection contains exactly the values contained in both (T = FieldValue)");
+    }
+
+    pub fn exclude_fv(mut a: CandidateValue<FieldValue>, x: FieldValue, p: FieldValue) {
+        let before = member(&a, &p);
+        let same = crate::refmodel::ref_eq(&x, &p);
+        a.verif_exclude_single_value(&x);
+        let after = member(&a, &p);
+        std::mem::forget(a);
+        std::mem::forget(p);
+        std::mem::forget(x);
+        assert!(!after || before, "exclusion result is contained in the original (T = FieldValue)");
+        assert!(!(before && !same) || after, "exclusion keeps every other value (T = FieldValue)");
+    }
+
+    fn single(v: FieldValue) -> CandidateValue<FieldValue> {
+        CandidateValue::Single(v)
+    }
+    fn multiple2(a: FieldValue, b: FieldValue) -> CandidateValue<FieldValue> {
+        CandidateValue::Multiple(vec![a, b])
+    }
+
+    // Only these shapes finish at T = FieldValue (4-26 s). Measured at the 600 s cap, all with the
+    // Arc::drop_slow stub: Single x Single of different integer kinds, Multiple x Single,
+    // Single x Range, every Range x Range shape tried (same-kind and mixed-kind bounds),
+    // exclude on a Range. The transfer to FieldValue therefore rests on C06@V + C08.
+    g!(single_n_single_n, 4, intersect_fv(single(mkv!(N)), single(mkv!(N)), mkv!(N)););
+    g!(multiple_in_multiple_ui, 5, intersect_fv(multiple2(mkv!(I), mkv!(N)), multiple2(mkv!(U), mkv!(I)), mkv!(U)););
+    g!(exclude_multiple, 5, exclude_fv(multiple2(mkv!(I), mkv!(U)), mkv!(U), mkv!(I)););
+}
